@@ -179,10 +179,30 @@ func idx(n int) []int {
 	return out
 }
 
+var c02ArithInts = []string{"9223372036854775807", "-9223372036854775808", "9223372036854775806", "-9223372036854775807", "0", "1", "-1", "4611686018427387904", "-4611686018427387904"}
+
+// c02Arith: a counter set to a boundary value and moved by a boundary amount: the overflow test of every
+// counter command on both operands at their extremes.
+func c02Arith(t *rapid.T) []kit.Argv {
+	k := c02Key(t)
+	out := []kit.Argv{kit.A("SET", k, pick(t, "start", c02ArithInts...))}
+	for n := rapid.IntRange(1, 3).Draw(t, "ariths"); n > 0; n-- {
+		out = append(out, kit.A(pick(t, "arith",
+			[]string{"INCRBY", k, pick(t, "by", c02ArithInts...)}, []string{"DECRBY", k, pick(t, "by2", c02ArithInts...)}, []string{"INCR", k}, []string{"DECR", k},
+			[]string{"INCRBYFLOAT", k, pick(t, "byf", "1", "-1", "0.5", "1e18", "-1e18", "9223372036854775807", "1e-5", "3.0e3")}, []string{"APPEND", k, "0"}, []string{"GETRANGE", k, "0", "-1"},
+		)...))
+	}
+	return out
+}
+
 func c02Gen(t *rapid.T) SeqCase {
 	var steps []kit.Argv
 	n := rapid.IntRange(8, 50).Draw(t, "steps")
 	for i := 0; i < n; i++ {
+		if rapid.IntRange(0, 14).Draw(t, "arith") == 0 {
+			steps = append(steps, c02Arith(t)...)
+			continue
+		}
 		if rapid.IntRange(0, 11).Draw(t, "gone") == 0 {
 			steps = append(steps, afterGone(t, c02Keys, c02Step)...)
 			continue
